@@ -97,12 +97,14 @@ CHECKS["C16"] = dict(
           "10^6 <= n < 10^7 and n is the value scaled to seven integer digits rounded to the nearest integer (ties to even, carry into "
           "an eighth digit handled), i.e. within half a unit of the seventh significant digit; the text printed for (n, e) — fixed or "
           "exponent notation, trailing zeros removed — is a numeric literal of the .dec grammar whose value is exactly n*10^(e-6). "
-          "The correspondence compares the printed text of every number with the model's text (for the exact rational and for it moved "
-          "by 2^-46 either way). Executed only: the float arithmetic before the formatting (float(literal), sum, division) and "
-          "str(float) of parameters are CPython's."),
+          "The floats before the formatting (Dec/Fl64.v): float(literal), '+', '-', '/' as binary64 round-to-nearest-even on exact rationals and "
+          "sum() as CPython >= 3.12 computes it (compensated); rnd64 returns a 53-bit significand with an exponent in the normal range, the scaled "
+          "value rounded to the nearest integer, ties to even (C16_floats_correctly_rounded). "
+          "The correspondence requires the printed text of every number to be exactly the one text the model computes (and within 2^-46 of the "
+          "ideal rational value). Executed only: str(float) of parameters; subnormal / overflowing values are outside the float model."),
     design="DESIGN.md §0 (C16 format as built), §5 C16",
     technique=("Coq proof (stable insertion sort: permutation/sortedness/stability; field arithmetic over Q; correctly rounded decimal "
-               "conversion: div/mod rounding lemma, digit-string / literal-reader round trip) + differential correspondence on parsed stdout, "
+               "conversion: div/mod rounding lemma, digit-string / literal-reader round trip; correctly rounded binary64 conversion) + differential correspondence on parsed stdout, "
                "printed numbers compared as text"))
 CHECKS["C15"] = dict(
     text=("Theorem over the model of DecayChainViewer's node/edge calls with the process-wide counter: the graph is the root "
